@@ -68,7 +68,7 @@ enum Obs {
 pub fn run_case(ctx: &Ctx, case: u64) {
     let rep = &ctx.rep;
     let mut r = Rng::derive(ctx.seed, 0xc03, case);
-    let bias = Bias { sets: r.chance(300), servers: false, regions: false, failing_ops: false, max_chans: 6, ops: r.range(10, 80) as usize };
+    let bias = Bias { sets: r.chance(300), servers: false, regions: false, failing_ops: false, failing_serialize: true, max_chans: 6, ops: r.range(10, 80) as usize };
     let it = Interp::new(ctx.seed, case, bias);
     let (out, mut world, mut model) = it.run();
     rep.stat("program_ops", out.trace.len() as i64);
@@ -138,7 +138,7 @@ pub fn run_case(ctx: &Ctx, case: u64) {
             model.chans[c].senders += 1;
             sim.chans[c].senders += 1;
             let id = 0xC0_0000 + case;
-            let _ = ktx.send(PMsg { id, data: crate::gen::Blob(vec![]), senders: vec![first.clone()], receivers: vec![], regions: vec![] });
+            let _ = ktx.send(PMsg { id, data: crate::gen::Blob(vec![]), senders: vec![first.clone()], receivers: vec![], regions: vec![], fail: crate::prog::FailIf(false) });
             drop(ktx);
             actions.push(Action::DropCarrier(krx));
             kinds.push("drop-carrier(fresh)");
